@@ -5,7 +5,7 @@
    candidate (key, salt, info) reproduces it (independent decryption / recomputation), whether the decrypted bytes are
    the original ones, and the raw blob / mac together with the framed text. *)
 From Coq Require Import List Bool NArith String Ascii.
-From Verif Require Import Base64 Crypto.
+From Verif Require Import Tag Base64 Crypto.
 Import ListNotations.
 Open Scope list_scope.
 
@@ -41,12 +41,28 @@ Record cbcase := {
   cb_obs : cbobs;
 }.
 
+(* A rotation PAYLOAD whose accessors (Wrapper(), HmacSalt(), HmacInfo()) have side effects: each starts an event on the SAME filter
+   on another goroutine and waits a bounded time for it - the dual of the Tags() callback: here the rotation is the operation in
+   flight and the events are scheduled into it.  A rotation payload is ONE atomic step of the model (Crypto.step / cstep ARot), so
+   whatever an accessor starts is ordered wholly before or wholly after it: an event with wrapper info is under key_in_force of
+   the old or of the new state; every value of a plain event is under the old or the new filter triple (value_atomic_plain: a
+   plain event takes each value's triple from one state); the event processed next is under the new state. *)
+Record rpcase := {
+  rp_init : fstate N;
+  rp_rot : option N * option bstr * option bstr;
+  rp_consumed : bool;                                               (* Process of the rotation payload returned (nil, nil) *)
+  rp_hooked : list (option ewinfo * list (cop * bstr) * cobs);      (* the events the accessors started, with what they produced *)
+  rp_after : list (cop * bstr);
+  rp_after_obs : cobs;
+}.
+
 Record ccase := {
   cc_id : N;
   cc_init : fstate N;
   cc_steps : list (op N * cobs);
   cc_conc : list (N * N * N);    (* under concurrent rotation j -> (wrapper j, salt j, info j): indices attributed to each HMAC value *)
   cc_cbs : list cbcase;          (* events rotated from their own Tags() callback *)
+  cc_rps : list rpcase;          (* rotation payloads whose accessors start events on the same filter *)
   cc_caller : bool;              (* the salt / info slices the caller configured the filters of this case with still hold the caller's bytes *)
 }.
 
@@ -154,9 +170,70 @@ Definition cb_mm (c : cbcase) : list kind :=
   | _, _ => [CKErr]
   end.
 
+(* ---------- rotation payloads with side effects ---------- *)
+Definition nilb {A} (l : list A) : bool := match l with [] => true | _ => false end.
+Definition rp_rotated (c : rpcase) : fstate N := match rp_rot c with (w, s, i) => rotate N (rp_init c) w s i end.
+Fixpoint check_values2 (t0 t1 : N * bstr * bstr) (vals : list (cop * bstr)) (os : list vobs) : bool :=
+  match vals, os with
+  | [], [] => true
+  | (c, _) :: r, o :: r' => (nilb (check_value t0 c o) || nilb (check_value t1 c o)) && check_values2 t0 t1 r r'
+  | _, _ => false
+  end.
+Definition hooked_ok (st0 st1 : fstate N) (h : option ewinfo * list (cop * bstr) * cobs) : bool :=
+  match h with
+  | (ewi, vals, ob) =>
+      nilb (step_mm st0 (OEvent N ewi vals) ob) || nilb (step_mm st1 (OEvent N ewi vals) ob) ||
+      match ewi, ob, key_in_force N m_derive st0 None, key_in_force N m_derive st1 None with
+      | None, CoValues os, Some t0, Some t1 => check_values2 t0 t1 vals os
+      | _, _, _, _ => false
+      end
+  end.
+Definition rp_mm (c : rpcase) : list kind :=
+  (if rp_consumed c then [] else [CKConsumed])
+  ++ (if forallb (hooked_ok (rp_init c) (rp_rotated c)) (rp_hooked c) then [] else [CKAtomic])
+  ++ step_mm (rp_rotated c) (OEvent N None (rp_after c)) (rp_after_obs c).
+
+(* ---------- events whose fields carry their own class tags, under FilterOperationOverrides ----------
+   The harness hands over the override table in force at the event, and per filtered value the TEXT of its class tag (a struct
+   tag, or "classification,filter" of a PointerTag) with its datum; Tag.v resolves the operation.  [tstep] turns such an event into a
+   step of the history: the values whose resolved action is encrypt / hmac are the model's values (to be attributed to the key in
+   force for THAT event - the per-event wrapper when the payload carries wrapper info, whatever the class-level operations are);
+   a value whose action is skip must come out unchanged, one whose action is redact as "[REDACTED]".  With every class-level
+   operation none, Process returns the very event before it looks at anything: an identity step of the model.
+   Precondition kept by the harness: the filter of a case with such events has a wrapper from the start (the model's head of
+   Process knows nothing of the class-level "a wrapper is required" scan; Encrypt.v / C09 cover it). *)
+Record tfield := { tf_tag : string; tf_data : bstr }.
+Inductive tobs := TText (same redacted : bool) | TVal (v : vobs).
+Inductive tres := TrErr | TrPanic | TrSame | TrConsumed | TrOut (l : list tobs).
+Definition tact (ov : overrides) (f : tfield) : act := Tag.action (resolve_string ov (tf_tag f)).
+Definition crypto_vals (ov : overrides) (fs : list tfield) : list (cop * bstr) :=
+  flat_map (fun f => match tact ov f with AEncrypt => [(CEnc [], tf_data f)] | AHmac => [(CHmac, tf_data f)] | _ => [] end) fs.
+(* the observations of the crypto values; anything that is not as the action says adds an unattributable value *)
+Fixpoint crypto_obs (ov : overrides) (fs : list tfield) (os : list tobs) : list vobs :=
+  match fs, os with
+  | [], [] => []
+  | f :: r, o :: r' =>
+      (match tact ov f, o with
+       | AEncrypt, TVal v | AHmac, TVal v => [v]
+       | AEncrypt, _ | AHmac, _ => [VUnknown]
+       | ASkip, TText true _ => []
+       | ARedact, TText _ true => []
+       | _, _ => [VUnknown; VUnknown]
+       end) ++ crypto_obs ov r r'
+  | _, _ => [VUnknown; VUnknown]
+  end.
+Definition tstep (ov : overrides) (ewi : option ewinfo) (fs : list tfield) (r : tres) : op N * cobs :=
+  if all_none ov then (ORotate N None None None, match r with TrSame => CoNone | TrPanic => CoPanic | _ => CoErr end)
+  else (OEvent N ewi (crypto_vals ov fs),
+        match r with
+        | TrErr => CoErr | TrPanic => CoPanic | TrConsumed | TrSame => CoConsumed
+        | TrOut os => CoValues (crypto_obs ov fs os)
+        end).
+
 Definition mismatches (cs : list ccase) : list (N * (N * N * kind)) :=
   flat_map (fun c =>
     map (fun m => (cc_id c, (fst m, 0%N, snd m))) (run_steps false (cc_init c) [] 0%N (cc_steps c))
     ++ (if forallb conc_ok (cc_conc c) then [] else [(cc_id c, (0%N, 1%N, CKAtomic))])
     ++ flat_map (fun cb => map (fun k => (cc_id c, (0%N, 2%N, k))) (cb_mm cb)) (cc_cbs c)
+    ++ flat_map (fun rp => map (fun k => (cc_id c, (0%N, 3%N, k))) (rp_mm rp)) (cc_rps c)
     ++ (if cc_caller c then [] else [(cc_id c, (0%N, 0%N, CKCallerSlice))])) cs.
